@@ -441,6 +441,9 @@ pub struct File {
     pub(crate) failed_runid: Option<i64>,
     pub(crate) stamp: Option<Stamp>,
     csum: String,
+    /// Identifies the database read this copy (and every clone of it) stems from.
+    #[cfg(feature = "verif")]
+    verif_load: u64,
 }
 
 const FILE_COLS: &str = "Files.rowid as \"rowid\", \
@@ -549,7 +552,15 @@ impl File {
             failed_runid: row.get("failed_runid")?,
             stamp: row.get("stamp")?,
             csum: row.get::<&str, Option<String>>("csum")?.unwrap_or_default(),
+            #[cfg(feature = "verif")]
+            verif_load: {
+                use std::sync::atomic::{AtomicU64, Ordering};
+                static NEXT: AtomicU64 = AtomicU64::new(1);
+                NEXT.fetch_add(1, Ordering::Relaxed)
+            },
         };
+        #[cfg(feature = "verif")]
+        crate::verif::point("row.load", &format!("{} {}", f.id, f.verif_load));
         if f.name.as_str() == ALWAYS {
             if let Some(env_runid) = runid {
                 f.changed_runid = Some(
@@ -602,6 +613,8 @@ impl File {
 
     /// Write the file to the database.
     pub fn save(&mut self, ptx: &mut ProcessTransaction) -> Result<(), RedoError> {
+        #[cfg(feature = "verif")]
+        crate::verif::point("row.save", &format!("{} {}", self.id, self.verif_load));
         ptx.write(
             "update Files set is_generated=?, \
                               is_override=?, \
